@@ -306,6 +306,11 @@ def equipment_for(case):
         # one default band: ROADMs without design_bands are single-band (the second SI entry of the multiband library would
         # make every ROADM C+L by default)
         eq['SI'].pop('lband', None)
+    return apply_overrides(eq, case)
+
+
+def apply_overrides(eq, case):
+    """the Span / SI / Edfa modifications of the case on a loaded library"""
     sp = eq['Span']['default']
     for k, v in case['span'].items():
         setattr(sp, k, copy.deepcopy(v))
